@@ -86,6 +86,10 @@ func (m *M) intrinsic(p *path, fr *Frame, ci ssa.CallInstruction, fn *ssa.Functi
 		switch fn.Name() {
 		case "Lock":
 			// enabledness was part of the firing guard
+			if m.Single {
+				m.violate(p, "stuck", "self-deadlock", ci, locked)
+				p.g = c.And(p.g, c.Not(locked))
+			}
 			m.memSet(p, a, VBool{c.T})
 			m.lockAdd(p, a)
 			return true, m.done(p, fr, ci, isDefer, nil)
@@ -226,6 +230,8 @@ func (m *M) intrinsic(p *path, fr *Frame, ci ssa.CallInstruction, fn *ssa.Functi
 		return true, m.done(p, fr, ci, isDefer, res)
 	case strings.HasSuffix(pkg, "/vrt"):
 		return true, m.vrt(p, fr, ci, fn.Name(), args, isDefer, work)
+	case pkg == "strings" && fn.Name() == "Join":
+		return true, m.done(p, fr, ci, isDefer, m.strJoin(p, ci, args[0].(VSlice), args[1].(VStr)))
 	case pkg == "errors" && fn.Name() == "New", pkg == "github.com/pkg/errors":
 		key := fmt.Sprintf("err:%s@%d.%d%s", fr.ID, fr.Blk, fr.Idx, loopsSig(fr.Loops))
 		obj := m.alloc(key, types.Typ[types.Int])
@@ -297,11 +303,18 @@ func (m *M) vrt(p *path, fr *Frame, ci ssa.CallInstruction, name string, args []
 	site := fmt.Sprintf("%s@%d.%d%s", fr.ID, fr.Blk, fr.Idx, loopsSig(fr.Loops))
 	switch name {
 	case "Bool":
+		if fv, ok := m.Fix[constString(cc.Args[0])]; ok {
+			return m.done(p, fr, ci, isDefer, VBool{c.Bool(fv != 0)})
+		}
 		key := "nd!" + constString(cc.Args[0]) + "!" + site
 		v := c.Var(key, 0)
 		m.Nondet[key] = v
 		return m.done(p, fr, ci, isDefer, VBool{v})
 	case "Int":
+		if fv, ok := m.Fix[constString(cc.Args[0])]; ok {
+			// case split: this run decides one concrete value of the input
+			return m.done(p, fr, ci, isDefer, VInt{c.BV(fv, 64)})
+		}
 		key := "nd!" + constString(cc.Args[0]) + "!" + site
 		v := c.Var(key, 64)
 		m.Nondet[key] = v
@@ -331,6 +344,29 @@ func (m *M) vrt(p *path, fr *Frame, ci ssa.CallInstruction, name string, args []
 		m.Assumes = append(m.Assumes, c.And(
 			c.Cmp("bvule", ln, c.BV(maxLen, 64)), c.Cmp("bvule", ln, cp), c.Cmp("bvule", cp, c.BV(maxCap, 64))))
 		return m.done(p, fr, ci, isDefer, VSlice{m.addrSet(a), VInt{ln}, VInt{cp}})
+	case "String":
+		name := constString(cc.Args[0])
+		maxLen, _ := constInt(args[1].(VInt))
+		key := "nd!" + name + "!" + site
+		out := VStr{}
+		for i := 0; i < int(maxLen); i++ {
+			bk := fmt.Sprintf("%s[%d]", key, i)
+			v := c.Var(bk, 8)
+			m.Nondet[bk] = v
+			out.B = append(out.B, v)
+		}
+		if v, ok := m.Fix[name+".len"]; ok {
+			out.Len = c.BV(v, 64)
+			if int(v) < len(out.B) {
+				out.B = out.B[:v]
+			}
+		} else {
+			ln := c.Var(key+".len", 64)
+			m.Nondet[key+".len"] = ln
+			m.Assumes = append(m.Assumes, c.Cmp("bvule", ln, c.BV(maxLen, 64)))
+			out.Len = ln
+		}
+		return m.done(p, fr, ci, isDefer, out)
 	case "Assume":
 		m.Assumes = append(m.Assumes, c.Implies(p.g, args[0].(VBool).T))
 		return m.done(p, fr, ci, isDefer, nil)
